@@ -227,6 +227,34 @@ pub fn run(args: &Args) -> i32 {
         let tracks = check_clustering(pts, what.clone(), loc);
         check_vertex_partition(tracks, what, loc);
     });
+    // the 3 cm relation at its threshold: two 14-point segments (2 mm spacing, each connected on its own) whose
+    // closest points are 3 cm x (1 +- 10^-k) apart, along z, along r and along the azimuth
+    rep.run("linkage-threshold", 3 * 29 * 4, 300, true, "two 14-point radial segments separated by a gap of 3 cm x (1 + s x 10^-k), s in {-1, +1}, k = 3..=16, and exactly 3 cm, along {z, r, azimuth} x 4 placements: a cluster may hold both segments only if the gap is within the 3 cm relation", |idx, loc| {
+        let d = unrank(idx, &[29, 3, 4]);
+        let gap = match d[0] {
+            0 => 0.03,
+            j => 0.03 * (1.0 + if j % 2 == 1 { 1.0 } else { -1.0 } * 10f64.powi(-(3 + (j as i32 - 1) / 2))),
+        };
+        let (z0, phi0) = [(0.0, 0.3), (-0.71, 2.9), (0.333, 4.4), (1.0, 6.1)][d[2] as usize];
+        let mut pts: Vec<SpacePoint> = (0..14).map(|i| sp(0.11 + 0.002 * i as f64, phi0, z0)).collect();
+        match d[1] {
+            0 => pts.extend((0..14).map(|i| sp(0.11 + 0.002 * i as f64, phi0, z0 + gap))),
+            1 => pts.extend((0..14).map(|i| sp(0.11 + 0.002 * 13.0 + gap + 0.002 * i as f64, phi0, z0))),
+            _ => {
+                // chord of length `gap` at every radius would need a radius-dependent angle: place the second segment
+                // parallel to the first, shifted perpendicular to it by `gap`
+                let (c, s) = (phi0.cos(), phi0.sin());
+                pts.extend((0..14).map(|i| {
+                    let r = 0.11 + 0.002 * i as f64;
+                    sp_xy(r * c - gap * s, r * s + gap * c, z0)
+                }));
+            }
+        }
+        let dir_name = ["z", "r", "perpendicular"][d[1] as usize];
+        let what = json!({"family": "linkage-threshold", "gap_m": gap, "direction": dir_name, "placement": d[2]});
+        check_clustering(pts, what, loc);
+    });
+
     // vertexing: template multisets and tracks far apart in z
     let ms = multisets(7, if thorough { 8 } else { 5 });
     rep.run("track-multisets", ms.len() as u64, 300, true, "every multiset of size 0..=8 (quick: 5) of 7 template tracks into find_vertices", |idx, loc| {
